@@ -185,7 +185,7 @@ func runDeleteRange(r *vrep.Report, u *uni.Universe, c *uni.ClientStore, strict 
 			rpcs = append(rpcs, fmt.Sprintf("#%d region=%d ver=%d [%q,%q) notify=%v %s err=%q regErr=%v", call.Seq, call.RegionID, call.RegionVer, q.StartKey, q.EndKey, q.NotifyOnly, call.Action, call.Err, call.RegionErr))
 		}
 		if q.NotifyOnly != cs.Notify {
-			r.Violate("deleterange:notify-flag", fmt.Sprintf("%s: a request carries notify_only=%v", cs, q.NotifyOnly), map[string]any{"case": cs.String(), "rpc": rpcs[len(rpcs)-1]})
+			viol(r, uni.Mock, "deleterange:notify-flag", fmt.Sprintf("%s: a request carries notify_only=%v", cs, q.NotifyOnly), map[string]any{"case": cs.String(), "rpc": rpcs[len(rpcs)-1]})
 		}
 		if call.Delivered && call.RegionErr == nil {
 			okRanges = append(okRanges, iv{string(q.StartKey), string(q.EndKey)})
@@ -193,12 +193,12 @@ func runDeleteRange(r *vrep.Report, u *uni.Universe, c *uni.ClientStore, strict 
 	}
 	detail := map[string]any{"case": cs.String(), "borders": lay.sorted(), "error": es(xerr), "delete_range_rpcs": rpcs}
 	for _, p := range u.Panics() {
-		r.Violate("backend-panic:"+p.Msg, cs.String()+": the store panicked serving "+p.Req, detail)
+		viol(r, uni.Mock, "backend-panic:"+p.Msg, cs.String()+": the store panicked serving "+p.Req, detail)
 		return false
 	}
 	if strict != nil && strict.delRejects.Load() > rejBefore {
 		// region id and epoch of the request were current, yet its range is not inside that region
-		r.Violate("deleterange:request-leaves-its-region", fmt.Sprintf("%s: %d DeleteRange requests addressed a region (current epoch) with a range that is not inside it", cs, strict.delRejects.Load()-rejBefore), detail)
+		viol(r, uni.Mock, "deleterange:request-leaves-its-region", fmt.Sprintf("%s: %d DeleteRange requests addressed a region (current epoch) with a range that is not inside it", cs, strict.delRejects.Load()-rejBefore), detail)
 	}
 	if runaway.Load() {
 		r.Inconc("%s: the task sent more than %d DeleteRange requests for a range over at most %d regions without finishing; its client was stopped", cs, bound, cs.Regions+cs.Splits)
@@ -211,7 +211,7 @@ func runDeleteRange(r *vrep.Report, u *uni.Universe, c *uni.ClientStore, strict 
 	if xerr != nil {
 		r.Count("runs_returning_error", 1)
 		if faults.Load() == 0 {
-			r.Violate("deleterange:error-without-fault", fmt.Sprintf("%s: Execute returned %s although no fault was injected", cs, es(xerr)), detail)
+			viol(r, uni.Mock, "deleterange:error-without-fault", fmt.Sprintf("%s: Execute returned %s although no fault was injected", cs, es(xerr)), detail)
 		}
 	}
 	after, err := u.ReadTruth(bkeys(keys))
@@ -230,7 +230,7 @@ func runDeleteRange(r *vrep.Report, u *uni.Universe, c *uni.ClientStore, strict 
 				removed++
 			}
 			if xerr == nil && (len(a.Writes) > 0 || a.Lock != nil) {
-				r.Violate("deleterange:key-in-range-survives", fmt.Sprintf("%s: key %q lies in the range and still has %d records", cs, k, len(a.Writes)), detail)
+				viol(r, uni.Mock, "deleterange:key-in-range-survives", fmt.Sprintf("%s: key %q lies in the range and still has %d records", cs, k, len(a.Writes)), detail)
 				return false
 			}
 			if xerr == nil {
@@ -246,7 +246,7 @@ func runDeleteRange(r *vrep.Report, u *uni.Universe, c *uni.ClientStore, strict 
 			if cs.Notify {
 				sig = "deleterange:notify-removed-a-key"
 			}
-			r.Violate(sig, fmt.Sprintf("%s: key %q lies outside the range (or the task only notifies) and went from %d to %d records", cs, k, len(b.Writes), len(a.Writes)), detail)
+			viol(r, uni.Mock, sig, fmt.Sprintf("%s: key %q lies outside the range (or the task only notifies) and went from %d to %d records", cs, k, len(b.Writes), len(a.Writes)), detail)
 			return false
 		}
 	}
@@ -254,17 +254,17 @@ func runDeleteRange(r *vrep.Report, u *uni.Universe, c *uni.ClientStore, strict 
 		// the reader's view = the ordered-map model
 		scan, gets, err := readAll(c, keys)
 		if err != nil {
-			r.Violate("deleterange:read-after-delete-failed", fmt.Sprintf("%s: reading after the task failed: %s", cs, es(err)), detail)
+			viol(r, uni.Mock, "deleterange:read-after-delete-failed", fmt.Sprintf("%s: reading after the task failed: %s", cs, es(err)), detail)
 			return false
 		}
 		for name, got := range map[string]map[string]string{"iter": scan, "get": gets} {
 			if len(got) != len(model) {
-				r.Violate("deleterange:model-mismatch:"+name, fmt.Sprintf("%s: %s sees %d keys, the model has %d", cs, name, len(got), len(model)), detail)
+				viol(r, uni.Mock, "deleterange:model-mismatch:"+name, fmt.Sprintf("%s: %s sees %d keys, the model has %d", cs, name, len(got), len(model)), detail)
 				return false
 			}
 			for k, v := range model {
 				if got[k] != v {
-					r.Violate("deleterange:model-mismatch:"+name, fmt.Sprintf("%s: %s of %q = %q, model %q", cs, name, k, got[k], v), detail)
+					viol(r, uni.Mock, "deleterange:model-mismatch:"+name, fmt.Sprintf("%s: %s of %q = %q, model %q", cs, name, k, got[k], v), detail)
 					return false
 				}
 			}
@@ -275,7 +275,7 @@ func runDeleteRange(r *vrep.Report, u *uni.Universe, c *uni.ClientStore, strict 
 			cur, covered := cs.Start, false
 			for _, v := range okRanges {
 				if !(v.s >= cs.Start && (cs.End == "" || (v.e != "" && v.e <= cs.End))) {
-					r.Violate("deleterange:notify-outside-range", fmt.Sprintf("%s: notified [%q,%q) outside the range", cs, v.s, v.e), detail)
+					viol(r, uni.Mock, "deleterange:notify-outside-range", fmt.Sprintf("%s: notified [%q,%q) outside the range", cs, v.s, v.e), detail)
 					return false
 				}
 				if v.s > cur {
@@ -294,7 +294,7 @@ func runDeleteRange(r *vrep.Report, u *uni.Universe, c *uni.ClientStore, strict 
 				covered = true
 			}
 			if !covered {
-				r.Violate("deleterange:notify-does-not-cover", fmt.Sprintf("%s: the notified ranges stop at %q", cs, cur), detail)
+				viol(r, uni.Mock, "deleterange:notify-does-not-cover", fmt.Sprintf("%s: the notified ranges stop at %q", cs, cur), detail)
 				return false
 			}
 			r.Count("notify_runs_checked", 1)
